@@ -41,14 +41,14 @@ NOT_PROVED = [
     "butterfly non-negativity is proved only for K1 + K3 <= 2 K2 (butterfly_nonneg_partial); for a middle strike below the "
     "midpoint the accepted payoff is negative (butterfly_neg_of_low_mid, known finding C17-butterfly-asymmetric-negative)",
     "identity/log agreement of Performances and MaximumOfPerformances is proved under the explicit hypothesis "
-    "exp(x - log s) = exp(x)/s (real_exp_sub_log proves it for the real pair; no strictly monotone Q -> Q pair satisfies it); "
-    "for NthDefaultTimes it is false of the code (identity implementation raises, known finding)",
+    "exp(x - log s) = exp(x)/s (real_exp_sub_log proves it for the real pair; no strictly monotone Q -> Q pair satisfies it)",
     "exp/log are an abstract inverse pair in M; numpy's exp/log values enter the correspondence as tables and are compared "
     "at 2^-40, not proved",
     "Rainbow, CDS, Bond, Cap, Ratchet, Swaption are modelled and compared (they hold no state, so pure_in_path covers them); "
     "no algebraic identity is claimed or proved for them",
     "product value vs representation for Barrier: the barrier flag is computed from the raw path (log-spot under LOG), "
-    "known finding C17-barrier-raw-path; pure_in_path holds with the representation as an argument of the pure function",
+    "counted as observation c17.observation:barrier_level_compared_with_raw_log_path (the statement only asks for equal "
+    "underlying values across representations); pure_in_path holds with the representation as an argument of the pure function",
 ]
 ASSUMPTIONS = ["len(path) == len(times) == len(jump_path) along the time axis, times[-1] > 0, rows non-empty (as the engines build them)",
                "CDS is exercised with an affine discounting callable df(t) = d0 + d1 t (the discounting function is user supplied)"]
